@@ -237,6 +237,13 @@ func c19RandomOnce(r *core.Rng) *c19Scenario {
 			case 3, 4:
 				// the sidecar answers its status but not its runtime info (its Prometheus is down)
 				sh.RuntimeOK = false
+			case 5:
+				// in sync, but it refuses the target update (or the extra-config update) of this cycle
+				if r.Intn(2) == 0 {
+					sh.PostOK = false
+				} else {
+					sh.ExtraOK = false
+				}
 			}
 			h.Shards = append(h.Shards, sh)
 		}
@@ -448,6 +455,9 @@ func runC19(w *core.WorkerCtx, idx int) *core.CaseResult {
 			if sh.Ready && sh.StatusOK && !sh.RuntimeOK {
 				hostile["shard-answers-status-but-not-runtimeinfo"] = true
 			}
+			if !sh.PostOK || !sh.ExtraOK {
+				hostile["in-sync-shard-refuses-an-update"] = true
+			}
 		}
 	}
 	for _, h := range s.H {
@@ -538,7 +548,7 @@ func init() {
 	core.Register(&core.Prop{
 		ID:    "C19",
 		Level: "exploration",
-		Rule: "differential over the stub-cycle engine: scenario = options + discovery + explorer table + a victim replica scripted for 4-5 cycles + a hostile replica (shard listing fails, scaling fails early/late, entirely unready, out of sync, shards that answer their status but not their runtime info, a replica that is missing from the listing in some cycles (so that the victim changes its position), a different placement of the same targets incl. in-transfer copies with larger series than the explorer's estimate); " +
+		Rule: "differential over the stub-cycle engine: scenario = options + discovery + explorer table + a victim replica scripted for 4-5 cycles + a hostile replica (shard listing fails, scaling fails early/late, entirely unready, out of sync, shards that answer their status but not their runtime info, in-sync shards that refuse the target or extra-config update, a replica that is missing from the listing in some cycles (so that the victim changes its position), a different placement of the same targets incl. in-transfer copies with larger series than the explorer's estimate); " +
 			"the victim is run alone (4 repetitions; victim scripts are generated under structural conditions that make its decisions independent of map order (first-fit mode, at most one unscraped healthy target per cycle, overloaded or non-first shards report at most one target); cases that still show more than one outcome in 30 repetitions are discarded and counted) and next to the hostile replica in both orders (3 repetitions each) through the real Coordinator.Run; the canonical per-cycle trace of everything the victim's shards and manager receive (GET/POST with target lists as sets, ChangeScale arguments) must be identical; a mismatch is re-examined with 100 repetitions of the victim alone: mixed outcomes discard the case, 100 of 100 equal to each other but different from before are reported as state leaking between replicas, and the victim alone is repeated after every case for the same test; " +
 			"plus the Kubernetes replicas manager on a fake clientset: the scripted life of one StatefulSet (ready / not ready / rolling update over 4-11 cycles, 0-130 s passing between cycles through the verif hook that shifts the manager's not-ready timers) is run alone and next to a second scripted StatefulSet listed before or after it; 'handed to the coordinator in this cycle' must be identical; " +
 			"plus a soak family (2/8): the healthy replica in an E2 closed loop (real api.Get/api.Post over loopback) next to a replica whose only shard answers 503 with an error body, 150-400 cycles in a child process whose RLIMIT_NOFILE is the number of descriptors open after a warm-up plus 30-60, and a control run without that replica; violation = a cycle does not complete AND the process can open fewer than 4 further descriptors, or a target discovered 12 cycles before the end is never assigned; " +
